@@ -249,10 +249,11 @@ struct SimCase
   int opt = 1;                   // spde: 1 Cholesky, 0 Chebyshev; fft: anti-aliasing flag
   int border = 8;                // spde: border of the mesh (cells)
   int nbsimu = 250, ncalls = 4, seed = 1; // R = nbsimu * ncalls; call k uses callSeed(seed, k)
+  int style = 1;                 // random generator: 1 = old style (library default), 0 = new style (law_set_old_style(false))
   template<class A> void io(A& a)
   {
     a("sim", sim)("ndim", ndim)("nvar", nvar)("st", st)("means", means)("grid", grid)("cpr", cpr)("gangle", gangle)("gfac", gfac);
-    a("anchors", anchors)("nb", nb)("opt", opt)("border", border)("nbsimu", nbsimu)("ncalls", ncalls)("seed", seed);
+    a("anchors", anchors)("nb", nb)("opt", opt)("border", border)("nbsimu", nbsimu)("ncalls", ncalls)("seed", seed)("style", style);
   }
   double rmax() const { double r = 0; for (auto& s : st) if (s.type != T_NUGGET) r = std::max(r, s.range); return r; }
   double rmin() const
@@ -483,6 +484,8 @@ static std::string simulateOnce(const SimCase& c, const Probes& P0, int seed, st
   std::unique_ptr<Model> model = buildModel(c.ndim, c.nvar, c.st, c.sim == SIM_TB ? c.means : std::vector<double>());
   int ncol0 = db->getColumnNumber();
   int err = 0;
+  law_set_old_style(c.style != 0);
+  struct Restore { ~Restore() { law_set_old_style(true); } } restore;
   switch (c.sim)
   {
     case SIM_TB:
@@ -547,7 +550,9 @@ static std::string typeTag(const SimCase& c)
     }
   return "mixed";
 }
-static std::string simTag(const SimCase& c)
+static std::string simTag0(const SimCase& c);
+static std::string simTag(const SimCase& c) { return simTag0(c) + (c.style ? "" : ":new"); }
+static std::string simTag0(const SimCase& c)
 {
   switch (c.sim)
   {
@@ -574,6 +579,7 @@ static void runSim(const SimCase& c, Ctx& ctx)
   ctx.label(fmt("nvar:%d", nvar));
   ctx.label(c.grid ? "support:grid" : "support:points");
   ctx.label(c.anisotropic() ? "aniso" : "iso");
+  ctx.label(c.style ? "generator:old" : "generator:new");
   for (auto& s : c.st) ctx.label(std::string("struct:") + tname(s.type));
   const int R = c.nbsimu * c.ncalls;
   ctx.label(fmt("R:%d", R));
@@ -776,6 +782,7 @@ static void runSim(const SimCase& c, Ctx& ctx)
 // number of calls grows with the rapidcheck size: R = 1000 at small sizes (quick), up to 4000
 static void genEnsemble(SimCase& c, int nbsimu, int minCalls, int maxCalls)
 {
+  c.style = G::pct(15) ? 0 : 1;
   c.nbsimu = nbsimu;
   c.ncalls = G::sz(minCalls, maxCalls);
   c.seed = G::seed();
@@ -822,7 +829,12 @@ static SimCase genFft()
   bool aniso = c.ndim == 2 && G::pct(50); // 3-D stays isotropic: the dilated grid must remain small
   std::vector<int> types = {T_EXPO, T_SPHE, T_CUBIC, T_GAUSS, T_MATERN, T_STABLE};
   int ns = G::i(1, 2);
-  for (int k = 0; k < ns; k++) c.st.push_back(genStruc(c.ndim, 1, k == 0 ? r1 : r1 * G::u(0.5, 1.), types, aniso));
+  for (int k = 0; k < ns; k++)
+  {
+    Struc s = genStruc(c.ndim, 1, k == 0 ? r1 : r1 * G::u(0.5, 1.), types, aniso);
+    if (aniso) s.ratio[1] = 1. / G::u(3., 3.3); // the grid has 3 * 3 * ratio cells per axis before dilation: keep it small
+    c.st.push_back(s);
+  }
   if (G::pct(25)) c.st.push_back(genNugget(c.ndim, 1));
   c.anchors = genAnchors(c.ndim, c.ndim == 3 ? 4 : 6, 1.5 * c.rmax(), G::pick<double>({0., 0., 5000.}));
   c.cpr = c.ndim == 3 ? 2 : 3;
@@ -836,7 +848,7 @@ static SimCase genFft()
   }
   c.opt = G::pct(70) ? 1 : 0;
   // one realisation per call (simfft creates a single output column whatever nbsimu: recorded under C13)
-  genEnsemble(c, 1, 1000, 4000);
+  genEnsemble(c, 1, 1000, 2500);
   return c;
 }
 static SimCase genSpectral()
@@ -868,7 +880,7 @@ static SimCase genSpde()
   c.opt = G::pct(75) ? 1 : 0;
   double r1 = G::pick<double>({1., 30., 1000.}) * G::u(0.8, 1.25);
   bool aniso = G::pct(c.opt ? 70 : 40);
-  int ns = (c.opt && G::pct(35)) ? 2 : 1;
+  int ns = (c.opt && G::pct(25)) ? 2 : 1;
   for (int k = 0; k < ns; k++)
   {
     Struc s = genStruc(2, 1, k == 0 ? r1 : r1 * G::u(0.6, 1.), {T_MATERN}, aniso);
@@ -877,13 +889,14 @@ static SimCase genSpde()
     c.st.push_back(s);
   }
   if (G::pct(25)) c.st.push_back(genNugget(2, 1));
-  c.anchors = genAnchors(2, c.opt ? 4 : 3, (c.opt ? 1.0 : 0.8) * c.rmax(), G::pick<double>({0., 0., 5000.}));
+  c.anchors = genAnchors(2, 3, (c.opt ? 1.0 : 0.8) * c.rmax(), G::pick<double>({0., 0., 5000.}));
   c.cpr = 3;
   c.nb = c.opt ? G::i(8, 10) : 8;         // mesh = range / nb  <= range / 8
   c.border = c.nb + G::i(0, 3);           // mesh border >= 1 range
   // one call (meshing and factorisation are paid once), all the realisations through nbsimu
   c.ncalls = 1;
-  c.nbsimu = c.opt ? 250 * G::sz(4, 16) : 1000;
+  c.style = G::pct(15) ? 0 : 1;
+  c.nbsimu = c.opt ? 250 * G::sz(4, 10) : 1000;
   c.seed = G::seed();
   return c;
 }
